@@ -81,7 +81,25 @@ def _os_unlink(path, *, dir_fd=None):
             if hook is not None:
                 hook("release", sim.rel(p))
             sim.yield_point("lock.unlink %s" % sim.rel(p))
+        elif isinstance(p, str) and t.sim.rootdir and p.startswith(t.sim.rootdir):
+            # removing a tile (or any other file of the simulated directory tree) is visible to peers
+            t.sim.yield_point("unlink %s" % t.sim.rel(p))
     return _installed["os.unlink"](path, dir_fd=dir_fd)
+
+
+def _os_remove(path, *, dir_fd=None):
+    return _os_unlink(path, dir_fd=dir_fd)
+
+
+def _make_rename(name):
+    def fn(src, dst, *a, **kw):
+        t = current_task()
+        if t is not None:
+            p = os.fspath(dst)
+            if isinstance(p, str) and t.sim.rootdir and p.startswith(t.sim.rootdir):
+                t.sim.yield_point("%s -> %s" % (name, t.sim.rel(p)))
+        return _installed["os." + name](src, dst, *a, **kw)
+    return fn
 
 
 # -- tile I/O ----------------------------------------------------------------
@@ -181,8 +199,14 @@ def install():
     time.time = _time
     time.monotonic = _monotonic
     time.perf_counter = _perf_counter
+    _installed["os.remove"] = os.remove
+    _installed["os.rename"] = os.rename
+    _installed["os.replace"] = os.replace
     os.open = _os_open
     os.unlink = _os_unlink
+    os.remove = _os_remove
+    os.rename = _make_rename("rename")
+    os.replace = _make_rename("replace")
 
     from toasty import image as timage
     from toasty import pyramid as tpyramid
